@@ -114,7 +114,7 @@ fn c08_residual_write_o1() {
 
 /// Same with partition order 0 and warm-up 2 (block 5, 3 coded samples: exercises the 4-way
 /// unrolled inner loop's tail).
-//@ unit props=C02,C08,C01 tier=quick kind=bounded timeout=900 funcs="<Residual as BitRepr>::write; <Residual as BitRepr>::count_bits" bound="block 7, partition order 0, warm-up 2 (5 coded samples: one full unrolled group + tail)"
+//@ unit props=C02,C08,C01 tier=thorough kind=bounded timeout=900 funcs="<Residual as BitRepr>::write; <Residual as BitRepr>::count_bits" bound="block 7, partition order 0, warm-up 2 (5 coded samples: one full unrolled group + tail)"
 #[kani::proof]
 #[kani::unwind(10)]
 fn c08_residual_write_o0() {
@@ -203,7 +203,7 @@ fn c08_fixed_write_order2() {
 
 /// LPC subframe of order 2: header 0b0_1ooooo_0 with ooooo = order-1, warm-up, 4-bit precision-1
 /// (never 1111), 5-bit shift (non-negative), coefficients in `precision` bits, residual.
-//@ unit props=C02,C08 tier=quick kind=bounded timeout=900 funcs="<Lpc as BitRepr>::write; <Lpc as BitRepr>::count_bits" bound="order 2, block 4; precision 1..=15, shift 0..=15, coefficients anywhere in the precision's range"
+//@ unit props=C02,C08 tier=thorough kind=bounded timeout=900 funcs="<Lpc as BitRepr>::write; <Lpc as BitRepr>::count_bits" bound="order 2, block 4; precision 1..=15, shift 0..=15, coefficients anywhere in the precision's range"
 #[kani::proof]
 #[kani::unwind(34)]
 fn c08_lpc_write_order2() {
